@@ -14,58 +14,73 @@ for a `V.*` prefix pattern).
 namespace SSet
 open Py V S
 
-/-! ## no accepted version string contains `*` -/
+/-! ## the characters of an accepted version string
 
-section nostar
+Every character of a string `Version()` accepts is ASCII white space, an ASCII letter or digit, or one of
+`. - _ ! +`; in particular none is `*` or `,`. -/
+
+/-- white space, alphanumeric, or one of `. - _ ! +` -/
+def okc (c : Nat) : Bool :=
+  isWs c || isAlnumAscii c || c == 46 || c == 45 || c == 95 || c == 33 || c == 43
+
+section chars
 open Spelling
 
-theorem ws_no_star (s : Str) (h : s.all isSpace = true) : ∀ c ∈ s, c ≠ 42 := by
-  intro c hc e
+theorem okc_of_digit {c : Nat} (h : isDigit c = true) : okc c = true := by
+  simp [okc, isAlnumAscii, h]
+
+theorem okc_of_alpha {c : Nat} (h : isAlphaAscii c = true) : okc c = true := by
+  simp [okc, isAlnumAscii, h]
+
+theorem alpha_of_lower_lower {c : Nat} (h : isLowerAscii (lowerAscii c) = true) : isAlphaAscii c = true := by
+  simp only [isLowerAscii, lowerAscii, isUpperAscii, isAlphaAscii, Bool.and_eq_true, decide_eq_true_eq,
+    Bool.or_eq_true] at *
+  split at h <;> omega
+
+theorem ws_okc (s : Str) (h : s.all isSpace = true) : ∀ c ∈ s, okc c = true := by
+  intro c hc
   have := List.all_eq_true.mp h c hc
-  subst e
-  revert this; decide
+  rw [isSpace_eq] at this
+  simp [okc, this]
 
-theorem digits_no_star (d : Str) (h : digitsOk d = true) : ∀ c ∈ d, c ≠ 42 := by
-  intro c hc e
-  have := ((digitsOk_iff d).mp h).2 c hc
-  subst e
-  revert this; decide
+theorem digits_okc (d : Str) (h : digitsOk d = true) : ∀ c ∈ d, okc c = true := by
+  intro c hc
+  exact okc_of_digit (((digitsOk_iff d).mp h).2 c hc)
 
-theorem word_no_star (w text : Str) (h : (lowerStr w == text) = true) (ht : 42 ∉ text) : ∀ c ∈ w, c ≠ 42 := by
-  intro c hc e
-  subst e
+theorem word_okc (w text : Str) (h : (lowerStr w == text) = true) (ht : ∀ x ∈ text, isLowerAscii x = true) :
+    ∀ c ∈ w, okc c = true := by
+  intro c hc
   have h' : lowerStr w = text := by simpa using h
-  have : lowerAscii 42 ∈ lowerStr w := List.mem_map_of_mem hc
+  have : lowerAscii c ∈ lowerStr w := List.mem_map_of_mem hc
   rw [h'] at this
-  exact ht (by simpa [lowerAscii, isUpperAscii] using this)
+  exact okc_of_alpha (alpha_of_lower_lower (ht _ this))
 
-theorem sep_no_star (s : Sep) : ∀ c ∈ s.render, c ≠ 42 := by
-  cases s <;> simp [Sep.render]
+theorem sep_okc (s : Sep) : ∀ c ∈ s.render, okc c = true := by
+  cases s <;> simp [Sep.render] <;> decide
 
-theorem seg_no_star (s : Str) (h : segOk s = true) : ∀ c ∈ s, c ≠ 42 := by
-  intro c hc e
+theorem seg_okc (s : Str) (h : segOk s = true) : ∀ c ∈ s, okc c = true := by
+  intro c hc
   simp only [segOk, Bool.and_eq_true, List.all_eq_true] at h
   have := h.2 c hc
-  subst e
-  revert this; decide
+  simp [okc, this]
 
-theorem group_no_star {W} (text : W → Str) (g : Group W) (h : g.ok text = true) (ht : 42 ∉ text g.kind) :
-    ∀ c ∈ g.render, c ≠ 42 := by
+theorem group_okc {W} (text : W → Str) (g : Group W) (h : g.ok text = true)
+    (ht : ∀ x ∈ text g.kind, isLowerAscii x = true) : ∀ c ∈ g.render, okc c = true := by
   simp only [Group.ok, Bool.and_eq_true] at h
   intro c hc
   simp only [Group.render, List.mem_append] at hc
   rcases hc with hc | hc | hc | hc
-  · exact sep_no_star _ c hc
-  · exact word_no_star _ _ h.1 ht c hc
-  · exact sep_no_star _ c hc
+  · exact sep_okc _ c hc
+  · exact word_okc _ _ h.1 ht c hc
+  · exact sep_okc _ c hc
   · cases hn : g.num with
     | none => simp [hn] at hc
     | some d =>
       simp only [hn, Option.getD_some] at hc
       have := h.2; simp only [hn] at this
-      exact digits_no_star d this c hc
+      exact digits_okc d this c hc
 
-theorem relRender_no_star (ds : List Digits) (h : ds.all digitsOk = true) : ∀ c ∈ relRender ds, c ≠ 42 := by
+theorem relRender_okc (ds : List Digits) (h : ds.all digitsOk = true) : ∀ c ∈ relRender ds, okc c = true := by
   induction ds with
   | nil => intro c hc; simp [relRender] at hc
   | cons d r ih =>
@@ -74,11 +89,11 @@ theorem relRender_no_star (ds : List Digits) (h : ds.all digitsOk = true) : ∀ 
     simp only [relRender, List.mem_cons, List.mem_append] at hc
     rcases hc with rfl | hc | hc
     · decide
-    · exact digits_no_star d h.1 c hc
+    · exact digits_okc d h.1 c hc
     · exact ih h.2 c hc
 
-theorem restRender_no_star (l : List (Sep × Str)) (h : (l.all fun p => p.1 != .none && segOk p.2) = true) :
-    ∀ c ∈ restRender l, c ≠ 42 := by
+theorem restRender_okc (l : List (Sep × Str)) (h : (l.all fun p => p.1 != .none && segOk p.2) = true) :
+    ∀ c ∈ restRender l, okc c = true := by
   induction l with
   | nil => intro c hc; simp [restRender] at hc
   | cons p r ih =>
@@ -87,43 +102,44 @@ theorem restRender_no_star (l : List (Sep × Str)) (h : (l.all fun p => p.1 != .
     intro c hc
     simp only [restRender, List.mem_append] at hc
     rcases hc with hc | hc | hc
-    · exact sep_no_star s c hc
-    · exact seg_no_star x h.1.2 c hc
+    · exact sep_okc s c hc
+    · exact seg_okc x h.1.2 c hc
     · exact ih h.2 c hc
 
-theorem preText_no_star (k : PreWord) : 42 ∉ k.text := by cases k <;> decide
-theorem postText_no_star (k : PostWord) : 42 ∉ k.text := by cases k <;> decide
+theorem preText_lower (k : PreWord) : ∀ x ∈ k.text, isLowerAscii x = true := by cases k <;> decide
+theorem postText_lower (k : PostWord) : ∀ x ∈ k.text, isLowerAscii x = true := by cases k <;> decide
 
-theorem render_no_star (sp : Spelling) (h : Valid sp = true) : ∀ c ∈ render sp, c ≠ 42 := by
+theorem render_okc (sp : Spelling) (h : Valid sp = true) : ∀ c ∈ render sp, okc c = true := by
   simp only [Valid, Bool.and_eq_true] at h
   obtain ⟨⟨⟨⟨⟨⟨⟨⟨⟨⟨h1, h2⟩, h3⟩, h4⟩, h5⟩, h6⟩, h7⟩, h8⟩, h9⟩, h10⟩, _⟩ := h
   intro c hc
   simp only [render, List.mem_append] at hc
   rcases hc with hc | hc | hc | hc | hc | hc | hc | hc | hc | hc
-  · exact ws_no_star _ h1 c hc
+  · exact ws_okc _ h1 c hc
   · cases hv : sp.v with
     | none => simp [hv, optR] at hc
     | some x =>
       simp only [hv, optR, List.mem_singleton] at hc
       simp only [hv] at h3
       subst hc
-      intro e; subst e; revert h3; decide
+      have hl : lowerAscii c = 118 := by simpa using h3
+      exact okc_of_alpha (alpha_of_lower_lower (by rw [hl]; decide))
   · cases he : sp.epoch with
     | none => simp [he, optR] at hc
     | some d =>
       simp only [he, optR, List.mem_append, List.mem_singleton] at hc
       simp only [he] at h4
       rcases hc with hc | rfl
-      · exact digits_no_star d h4 c hc
+      · exact digits_okc d h4 c hc
       · decide
-  · exact digits_no_star _ h5 c hc
-  · exact relRender_no_star _ h6 c hc
+  · exact digits_okc _ h5 c hc
+  · exact relRender_okc _ h6 c hc
   · cases hp : sp.pre with
     | none => simp [hp, optR] at hc
     | some g =>
       simp only [hp, optR] at hc
       simp only [hp] at h7
-      exact group_no_star _ g h7 (preText_no_star _) c hc
+      exact group_okc _ g h7 (preText_lower _) c hc
   · cases hp : sp.post with
     | none => simp [hp, optR] at hc
     | some p =>
@@ -135,17 +151,17 @@ theorem render_no_star (sp : Spelling) (h : Valid sp = true) : ∀ c ∈ render 
         simp only [Post.ok] at h8
         rcases hc with rfl | hc
         · decide
-        · exact digits_no_star n h8 c hc
+        · exact digits_okc n h8 c hc
       | spelled g =>
         simp only [Post.render] at hc
         simp only [Post.ok] at h8
-        exact group_no_star _ g h8 (postText_no_star _) c hc
+        exact group_okc _ g h8 (postText_lower _) c hc
   · cases hp : sp.dev with
     | none => simp [hp, optR] at hc
     | some g =>
       simp only [hp, optR] at hc
       simp only [hp] at h9
-      exact group_no_star _ g h9 (by decide) c hc
+      exact group_okc _ g h9 (by decide) c hc
   · cases hp : sp.loc with
     | none => simp [hp, optR] at hc
     | some l =>
@@ -153,16 +169,24 @@ theorem render_no_star (sp : Spelling) (h : Valid sp = true) : ∀ c ∈ render 
       simp only [hp, Local.ok, Bool.and_eq_true] at h10
       rcases hc with rfl | hc | hc
       · decide
-      · exact seg_no_star _ h10.1 c hc
-      · exact restRender_no_star _ h10.2 c hc
-  · exact ws_no_star _ h2 c hc
+      · exact seg_okc _ h10.1 c hc
+      · exact restRender_okc _ h10.2 c hc
+  · exact ws_okc _ h2 c hc
 
-end nostar
+end chars
+
+/-- every character of an accepted version string is white space, alphanumeric or one of `. - _ ! +` -/
+theorem scan_chars (s : Str) (v : Ver) (h : scan s = some v) : ∀ c ∈ s, okc c = true := by
+  obtain ⟨sp, hv, rfl, _⟩ := C02.scan_sound s v h
+  exact render_okc sp hv
 
 /-- **no accepted version string contains `*`** -/
 theorem scan_no_star (s : Str) (v : Ver) (h : scan s = some v) : 42 ∉ s := by
-  obtain ⟨sp, hv, rfl, _⟩ := C02.scan_sound s v h
-  intro hm; exact render_no_star sp hv 42 hm rfl
+  intro hm; have := scan_chars s v h 42 hm; revert this; decide
+
+/-- … nor a comma -/
+theorem scan_no_comma (s : Str) (v : Ver) (h : scan s = some v) : 44 ∉ s := by
+  intro hm; have := scan_chars s v h 44 hm; revert this; decide
 
 theorem endsWith_star_false (s : Str) (v : Ver) (h : scan s = some v) : endsWith s [46, 42] = false := by
   have hn := scan_no_star s v h
